@@ -2191,8 +2191,12 @@ fn sweep_msb(kind: u32, out: &mut Out, id: &str, sid: u64) {
     for b in 0..64usize {
         if (b as u64) % 2 != sid % 2 { continue; }
         let top = 1usize << b;
-        let vals: Vec<usize> = vec![3.min(top), top | (top >> 1), 0, top];
-        let cid = format!("{}m{}", id, b);
+      for fam in 0..2usize {
+        // family 0: maximum 2^b + 2^(b-1); family 1: maximum 2^(b+1) - 1 (the value below a power of two)
+        let allones = top | (top - 1);
+        let vals: Vec<usize> = if fam == 0 { vec![3.min(top), top | (top >> 1), 0, top] } else { vec![1.min(top), allones, 0, allones >> 1] };
+        let cid = format!("{}m{}f{}", id, b, fam);
+        if fam == 1 && kind == 5 { continue; }
         match kind {
             6 => {
                 out.case(&cid);
@@ -2284,6 +2288,7 @@ fn sweep_msb(kind: u32, out: &mut Out, id: &str, sid: u64) {
             }
             _ => {}
         }
+      }
     }
     out.stat("sweep:msb-positions");
 }
@@ -2334,6 +2339,96 @@ fn kind_wm_sparse(rng: &mut Rng, out: &mut Out, id: &str, sid: u64) {
     }
     out.op(98, &[], r_num(|| wm.size_in_bytes()), "size_in_bytes");
     out.end();
+}
+
+// steep bit-length histograms over a small range (counts shrink by a factor r per bit): the optimum uses several
+// 1-bit levels, more than half of the maximum's bit length
+fn sweep_steep(out: &mut Out, id: &str, sid: u64) {
+    use sucds::int_vectors::Access as IA;
+    let mut combo = 0u64;
+    for &(w, r) in &[(4usize, 10usize), (4, 3), (5, 6), (6, 4), (8, 3), (8, 2), (3, 12), (12, 2)] {
+        for &mlc in &[0usize, 1, 2] {
+            combo += 1;
+            if combo % 2 != sid % 2 { continue; }
+            let mut vals: Vec<usize> = vec![];
+            let mut cnt = 1usize;
+            for len in (1..=w).rev() {
+                // `cnt` values of bit length `len` (the longest are the fewest)
+                for j in 0..cnt { vals.push(if len == 1 { j % 2 } else { (1usize << (len - 1)) | (j % (1usize << (len - 1))) }); }
+                cnt = (cnt * r).min(2500);
+            }
+            let (has_ml, ml) = match mlc { 0 => (false, 0), 1 => (true, w), _ => (true, (w + 1) / 2 + 1) };
+            out.case(&format!("{}w{}r{}l{}", id, w, r, mlc));
+            out.data(&vals);
+            match guard(|| DacsOpt::from_slice(&vals, if has_ml { Some(ml) } else { None })) {
+                None => out.op(1007, &[has_ml as usize, ml], "P".into(), "DacsOpt::from_slice"),
+                Some(Err(_)) => out.op(1007, &[has_ml as usize, ml], "E".into(), "DacsOpt::from_slice"),
+                Some(Ok(x)) => {
+                    out.op(1007, &[has_ml as usize, ml], "K".into(), "DacsOpt::from_slice (steep histogram)");
+                    out.op(10, &[], r_num(|| x.len()), "len");
+                    out.op(80, &[], r_num(|| x.num_levels()), "num_levels");
+                    out.op(81, &[], r_nums(&x.widths()), "widths");
+                    let n = vals.len();
+                    for &p in &[0usize, 1, n / 2, n - 1, n] { out.op(78, &[p], r_optnum(|| x.access(p)), "access"); }
+                }
+            }
+            out.end();
+        }
+    }
+    out.stat("sweep:steep-histograms");
+}
+
+// word- and block-aligned lengths x simple patterns for Rank9Sel / DArray / SArray with every index enabled:
+// the last word is full, the last block is full, nothing follows the last one / zero
+fn sweep_aligned(kind: u32, out: &mut Out, id: &str, sid: u64) {
+    let mut combo = 0u64;
+    for &len in &[64usize, 128, 192, 512, 576, 1024] {
+        for pat in 0..5usize {
+            combo += 1;
+            if combo % 2 != sid % 2 { continue; }
+            let bits: Vec<bool> = (0..len).map(|i| match pat {
+                0 => false, 1 => true, 2 => i % 2 == 0, 3 => i < len - 64, _ => i >= len - 64 || i % 7 == 0 }).collect();
+            let ones = bits.iter().filter(|&&b| b).count();
+            if kind == 4 && ones == 0 { continue; }
+            out.case(&format!("{}a{}p{}", id, len, pat));
+            out.data(&words_of(&bits));
+            macro_rules! queries { ($x:expr, $sel0:expr) => {{
+                let x = $x;
+                out.op(10, &[], r_num(|| x.num_bits()), "num_bits");
+                out.op(22, &[], r_num(|| x.num_ones()), "num_ones");
+                for &p in &[0usize, 63, 64, len.wrapping_sub(65), len - 64, len - 1, len, len + 1] {
+                    out.op(11, &[p], r_optbool(|| x.access(p)), "access");
+                    out.op(14, &[p], r_optnum(|| x.rank1(p)), "rank1");
+                    out.op(15, &[p], r_optnum(|| x.rank0(p)), "rank0");
+                }
+                let zeros = len - ones;
+                for &k in &[0usize, 1, 63, 64, ones.wrapping_sub(2), ones.wrapping_sub(1), ones, ones + 1] {
+                    out.op(16, &[k], r_optnum(|| x.select1(k)), "select1");
+                }
+                if $sel0 {
+                    for &k in &[0usize, 1, 63, 64, zeros.wrapping_sub(2), zeros.wrapping_sub(1), zeros, zeros + 1] {
+                        out.op(17, &[k], r_optnum(|| x.select0(k)), "select0");
+                    }
+                }
+            }}; }
+            match kind {
+                2 => match guard(|| Rank9Sel::from_bits(bits.iter().cloned()).select1_hints().select0_hints()) {
+                    None => out.op(1002, &[len, 1, 1], "P".into(), "Rank9Sel construction panicked"),
+                    Some(x) => { out.op(1002, &[len, 1, 1], "K".into(), "Rank9Sel (aligned length)"); queries!(&x, true); }
+                },
+                3 => match guard(|| DArray::from_bits(bits.iter().cloned()).enable_rank().enable_select0()) {
+                    None => out.op(1003, &[len, 1, 1], "P".into(), "DArray construction panicked"),
+                    Some(x) => { out.op(1003, &[len, 1, 1], "K".into(), "DArray (aligned length)"); queries!(&x, true); }
+                },
+                _ => match guard(|| SArray::from_bits(bits.iter().cloned()).enable_rank()) {
+                    None => out.op(1004, &[len, 1], "P".into(), "SArray construction panicked"),
+                    Some(x) => { out.op(1004, &[len, 1], "K".into(), "SArray (aligned length)"); queries!(&x, false); }
+                },
+            }
+            out.end();
+        }
+    }
+    out.stat("sweep:aligned-lengths");
 }
 
 // kind 26: DArray exact-span sweep (deep / thorough searches): lead x ones-before-the-far-one x distance x view,
@@ -2485,12 +2580,12 @@ fn main() {
             let id = format!("k{}s{}c{}", k, seed, i);
             match k {
                 1 => if i % 4 == 3 { kind_bitvec_big(&mut rng, &mut out, &id, tier) } else { kind_bitvec(&mut rng, &mut out, &id, tier) },
-                2 => kind_rank9(&mut rng, &mut out, &id, tier),
-                3 => kind_darray(&mut rng, &mut out, &id, tier),
-                4 => kind_sarray(&mut rng, &mut out, &id, tier),
+                2 => { if i == 0 { sweep_aligned(2, &mut out, &id, sid); } kind_rank9(&mut rng, &mut out, &id, tier) }
+                3 => { if i == 0 { sweep_aligned(3, &mut out, &id, sid); } kind_darray(&mut rng, &mut out, &id, tier) }
+                4 => { if i == 0 { sweep_aligned(4, &mut out, &id, sid); } kind_sarray(&mut rng, &mut out, &id, tier) }
                 5 => { if i == 0 { sweep_msb(5, &mut out, &id, sid); } kind_efb(&mut rng, &mut out, &id, tier) }
                 6 => { if i == 0 { sweep_msb(6, &mut out, &id, sid); } kind_cv(&mut rng, &mut out, &id, tier) }
-                7 => { if i == 0 { sweep_msb(7, &mut out, &id, sid); } kind_dacsopt(&mut rng, &mut out, &id, tier) }
+                7 => { if i == 0 { sweep_msb(7, &mut out, &id, sid); sweep_steep(&mut out, &id, sid); } kind_dacsopt(&mut rng, &mut out, &id, tier) }
                 8 => { if i == 0 { sweep_msb(8, &mut out, &id, sid); } kind_dacsbyte(&mut rng, &mut out, &id, tier) }
                 9 => kind_psef(&mut rng, &mut out, &id, tier),
                 10 => kind_wm(&mut rng, &mut out, &id, tier),
